@@ -9,10 +9,10 @@ use crate::driver::AnyFlow;
 use crate::engine::{guarded, show, Report, Tier, Violation};
 use crate::refmodel::framing::{after, decide, After, Framing};
 
-pub const RULE: &str = "full product, no pruning: request method (9) x status 100..=999 (900) x response version {1.0,1.1} x Content-Length {absent,0,7,18446744073709551615,abc,-1} x Transfer-Encoding {absent,chunked,Chunked,CHUNKED,'gzip, chunked','gzip,chunked',gzip,identity,'gzip,' (empty list element),'' (empty value),chunk} = 1 069 200 cells (every third status additionally carries empty-valued fields ahead of the framing headers) x entry points {Flow::try_response+proceed+body_mode, Call::try_response+into_body}; each cell also reads a probe body with trailing bytes to confirm the decided framing is the one applied. distinct = distinct (method, status class, version, CL, TE, decision) cells";
+pub const RULE: &str = "full product, no pruning: request method (9) x status 100..=999 (900) x response version {1.0,1.1} x Content-Length {absent,0,7,18446744073709551615,abc,-1,4294967296,20-character zero-padded 7,2^64} x Transfer-Encoding {absent,chunked,Chunked,CHUNKED,'gzip, chunked','gzip,chunked',gzip,identity,'gzip,' (empty list element),'' (empty value),chunk} = 1 603 800 cells (every third status additionally carries empty-valued fields ahead of the framing headers) x entry points {Flow::try_response+proceed+body_mode, Call::try_response+into_body}; each cell also reads a probe body with trailing bytes to confirm the decided framing is the one applied. distinct = distinct (method, status class, version, CL, TE, decision) cells";
 
 const METHODS: [&str; 9] = ["GET", "HEAD", "POST", "PUT", "DELETE", "CONNECT", "OPTIONS", "TRACE", "PATCH"];
-const CLS: [Option<&str>; 6] = [None, Some("0"), Some("7"), Some("18446744073709551615"), Some("abc"), Some("-1")];
+const CLS: [Option<&str>; 9] = [None, Some("0"), Some("7"), Some("18446744073709551615"), Some("abc"), Some("-1"), Some("4294967296"), Some("00000000000000000007"), Some("18446744073709551616")];
 const TES: [Option<&str>; 11] = [None, Some("chunked"), Some("Chunked"), Some("CHUNKED"), Some("gzip, chunked"), Some("gzip,chunked"), Some("gzip"), Some("identity"), Some("gzip,"), Some(""), Some("chunk")];
 
 fn head_bytes(status: u16, v11: bool, cl: Option<&str>, te: Option<&str>) -> Vec<u8> {
